@@ -110,6 +110,11 @@ func cmdPortionCheck(args []string) {
 		line["varmeta"] = metaChannel("vars { portion $p }\nset_tx_meta(\"p\", $p)", map[string]string{"p": g.Lex})
 		total := g.D
 		line["litsplit"] = splitChannel(fmt.Sprintf("send [COIN %d] (\n source = @world\n destination = { %s to @a\n remaining to @b }\n)", total, g.Lex), nil)
+		combo := fmt.Sprintf("vars { portion $p }\nsend [COIN %d] (\n source = @world\n destination = { $p to @a\n remaining to @b }\n)\nset_tx_meta(\"p\", $p)\nsend [COIN %d] (\n source = @world\n destination = { $p to @a\n remaining to @b }\n)", total, total)
+		cm := metaChannel(combo, map[string]string{"p": g.Lex})
+		cs := splitChannel(combo, map[string]string{"p": g.Lex})
+		line["combometa"] = cm
+		line["combosplit"] = J{"st": cs["st"], "a": cs["a"], "b": cs["b"]}
 		line["varsplit"] = splitChannel(fmt.Sprintf("vars { portion $p }\nsend [COIN %d] (\n source = @world\n destination = { $p to @a\n remaining to @b }\n)", total), map[string]string{"p": g.Lex})
 		// long numerals (beyond TLC's integers): the same value spelled with 25 more digits must render identically (scaling lift)
 		long := []any{}
@@ -157,7 +162,8 @@ func rtValues(r *rand.Rand, n int) []rtValue {
 		{"account", "a", true}, {"account", "users:001", true}, {"account", "a-b_c:x9", true}, {"account", "world", true},
 		{"asset", "USD", true}, {"asset", "EUR/2", true}, {"asset", "X/0", true}, {"asset", "9", true},
 		{"string", "", true}, {"string", "hello world", true}, {"string", "é ü 漢", true}, {"string", `q"uo\te`, true}, {"string", " lead and trail ", true}, {"string", "1/2", true}, {"string", "USD 5", true},
-		{"number", "0", true}, {"number", "-5", true}, {"number", "42", true}, {"number", big1, true}, {"number", "-" + big1, true}, {"number", "18446744073709551616", true},
+		{"number", "0", true}, {"number", "-5", true}, {"number", "42", true}, {"number", big1, true}, {"number", "-" + big1, true}, {"number", "18446744073709551616", true}, {"number", "9223372036854775808", true}, {"number", "18446744073709551615", true}, {"number", "9223372036854775807", true}, {"number", "-9223372036854775809", true},
+		{"monetary", "USD 18446744073709551615", true}, {"monetary", "USD 9223372036854775808", true},
 		{"monetary", "USD 5", true}, {"monetary", "EUR/2 -7", true}, {"monetary", "COIN " + big1, true}, {"monetary", "USD 0", true}, {"monetary", "X/0 -" + big1, true},
 		{"portion", "1/3", true}, {"portion", "0/1", true}, {"portion", "1/1", true}, {"portion", "7/8", true}, {"portion", "1/1000000007", true},
 		{"portion", "50%", false}, {"portion", "12.5%", false}, {"portion", "2/4", false}, {"portion", "100%", false}, {"portion", "0%", false},
